@@ -398,3 +398,87 @@ theorem obsSList_mapInfo (c : Cfg) (f : Info → Info) (hf : ∀ i, (f i).mode =
 end
 
 end LLBuild.DirTree
+
+namespace LLBuild.DirTree
+
+/-! ## a change in one child's observation changes the parent's (any depth, by iteration) -/
+
+theorem mem_obsList (c : Cfg) (n : Name) (o : Obs) (cs : List (Name × Tree)) :
+    (n, o) ∈ obsList c cs ↔ ∃ t, (n, t) ∈ cs ∧ c.hidden n = false ∧ o = obs c t := by
+  induction cs with
+  | nil => simp [obsList]
+  | cons x xs ih =>
+    obtain ⟨m, q⟩ := x
+    rw [obsList_cons]
+    by_cases h : c.hidden m = true
+    · simp only [h, if_true, ih, List.mem_cons, Prod.mk.injEq]
+      constructor
+      · rintro ⟨t, ht, hh, ho⟩; exact ⟨t, Or.inr ht, hh, ho⟩
+      · rintro ⟨t, ht | ht, hh, ho⟩
+        · rw [ht.1, h] at hh; simp at hh
+        · exact ⟨t, ht, hh, ho⟩
+    · have h' : c.hidden m = false := by simpa using h
+      simp only [h', Bool.false_eq_true, if_false, List.mem_cons, Prod.mk.injEq, ih]
+      constructor
+      · rintro (⟨hn, ho⟩ | ⟨t, ht, hh, ho⟩)
+        · exact ⟨q, Or.inl ⟨hn, rfl⟩, by rw [hn]; exact h', ho⟩
+        · exact ⟨t, Or.inr ht, hh, ho⟩
+      · rintro ⟨t, ht | ht, hh, ho⟩
+        · exact Or.inl ⟨ht.1, by rw [ho, ht.2]⟩
+        · exact Or.inr ⟨t, ht, hh, ho⟩
+
+theorem mem_toSList (n : Name) (s : SObs) (l : List (Name × Obs)) :
+    (n, s) ∈ Obs.toSList l ↔ ∃ o, (n, o) ∈ l ∧ o.toS = s := by
+  induction l with
+  | nil => simp [Obs.toSList]
+  | cons x xs ih =>
+    obtain ⟨m, q⟩ := x
+    simp only [Obs.toSList, List.mem_cons, Prod.mk.injEq, ih]
+    constructor
+    · rintro (⟨hn, hs⟩ | ⟨o, ho, hs⟩)
+      · exact ⟨q, Or.inl ⟨hn, rfl⟩, hs.symm⟩
+      · exact ⟨o, Or.inr ho, hs⟩
+    · rintro ⟨o, ho | ho, hs⟩
+      · exact Or.inl ⟨ho.1, by rw [← hs, ho.2]⟩
+      · exact Or.inr ⟨o, ho, hs⟩
+
+/-- the only entry named `n` in `pre ++ (n, t) :: post` is `t`, when no other entry has that name -/
+theorem unique_entry (n : Name) (t t' : Tree) (pre post : List (Name × Tree))
+    (hu : n ∉ names (pre ++ post)) (h : (n, t') ∈ pre ++ (n, t) :: post) : t' = t := by
+  simp only [List.mem_append, List.mem_cons, Prod.mk.injEq, true_and] at h
+  simp only [names, List.map_append, List.mem_append, List.mem_map, not_or, not_exists, not_and] at hu
+  rcases h with h | h | h
+  · exact absurd rfl (hu.1 _ h)
+  · exact h
+  · exact absurd rfl (hu.2 _ h)
+
+theorem obs_child_lifts (c : Cfg) (n : Name) (t₁ t₂ : Tree) (pre post : List (Name × Tree)) (i₁ i₂ : Info)
+    (hv : c.hidden n = false) (hu : n ∉ names (pre ++ post)) (hne : obs c t₁ ≠ obs c t₂) :
+    obs c (.dir i₁ (pre ++ (n, t₁) :: post)) ≠ obs c (.dir i₂ (pre ++ (n, t₂) :: post)) := by
+  intro h
+  simp only [obs, Obs.dir.injEq] at h
+  have h1 : (n, obs c t₁) ∈ sortBy c.before (obsList c (pre ++ (n, t₁) :: post)) := by
+    rw [mem_sortBy, mem_obsList]; exact ⟨t₁, by simp, hv, rfl⟩
+  rw [h.2, mem_sortBy, mem_obsList] at h1
+  obtain ⟨t, ht, _, ho⟩ := h1
+  rw [unique_entry n t₂ t pre post hu ht] at ho
+  exact hne ho
+
+theorem obsS_child_lifts (c : Cfg) (n : Name) (t₁ t₂ : Tree) (pre post : List (Name × Tree)) (i₁ i₂ : Info)
+    (hv : c.hidden n = false) (hu : n ∉ names (pre ++ post)) (hne : obsS c t₁ ≠ obsS c t₂) :
+    obsS c (.dir i₁ (pre ++ (n, t₁) :: post)) ≠ obsS c (.dir i₂ (pre ++ (n, t₂) :: post)) := by
+  intro h
+  simp only [obsS, obs, Obs.toS, SObs.dir.injEq] at h
+  have h1 : (n, (obs c t₁).toS) ∈ Obs.toSList (sortBy c.before (obsList c (pre ++ (n, t₁) :: post))) := by
+    rw [mem_toSList]; refine ⟨obs c t₁, ?_, rfl⟩
+    rw [mem_sortBy, mem_obsList]; exact ⟨t₁, by simp, hv, rfl⟩
+  rw [h.2, mem_toSList] at h1
+  obtain ⟨o, ho, hs⟩ := h1
+  rw [mem_sortBy, mem_obsList] at ho
+  obtain ⟨t, ht, _, hot⟩ := ho
+  rw [unique_entry n t₂ t pre post hu ht] at hot
+  apply hne
+  simp only [obsS]
+  rw [← hs, hot]
+
+end LLBuild.DirTree
